@@ -235,7 +235,10 @@ func (l *leader) checkConfigAction(t *task, config Config, status *replicationSt
 }
 
 func (l *leader) canChangeConfig() bool {
-	return l.configs.IsCommitted() && !l.transfer.inProgress()
+	// a leader introduces a configuration only after it has committed an
+	// entry of its own term (see onChangeConfig); pending actions inherited
+	// from the previous leader have to wait for that as well
+	return l.configs.IsCommitted() && !l.transfer.inProgress() && l.commitIndex >= l.startIndex
 }
 
 func (l *leader) onWaitForStableConfig(t waitForStableConfig) {
